@@ -143,7 +143,11 @@ func solveAll(cx *Ctx, obls []*Obligation, opt solveOpts) {
 			}
 			file := filepath.Join(opt.workDir, fmt.Sprintf("%s-%d.smt2", mangle(o.Name), i))
 			os.WriteFile(file, []byte(script), 0o644)
-			r, _ := solve(file, opt.timeout, opt.seed, opt.cross && !o.ExpectSat)
+			to := opt.timeout
+			if o.ExpectSat && to > 4*time.Second {
+				to = 4 * time.Second
+			}
+			r, _ := solve(file, to, opt.seed, opt.cross && !o.ExpectSat)
 			o.Status, o.Solver, o.TimeS, o.Output, o.Script = r.status, r.solver, r.dur.Seconds(), r.out, file
 			if len(o.Output) > 2000 {
 				o.Output = o.Output[:2000]
